@@ -104,9 +104,10 @@ def rk_case(case):
     for call in range(2):          # two chained calls: the second starts from cached end slopes (FSAL path)
         try:
             new_dt, (dT, dY) = m(rhs, tcur, ycur, {}, h)
-        except de.exception_types.FailedToMeetTolerances:
+        except Exception as e:
+            # FailedToMeetTolerances, or an error escaping the nonlinear solver (LinAlgError / 'Encountered nan'): no step was handed back
             r.n += 1
-            r.out(("rk", case["method"], case["dtype"], "no-accept"))
+            r.out(("rk", case["method"], case["dtype"], "no-accept", type(e).__name__))
             r.add("not_accepted")
             return r
         tn = None
@@ -129,7 +130,7 @@ def rk_case(case):
             tcur = dtype(case["t"]) + dtype(0.75); ycur = (y * dtype(0.5) + dtype(0.25)).astype(dtype); h = dtype(-0.5) * dtype(case["h"])
             try:
                 new_dt, (dT, dY) = m(rhs, tcur, ycur, {}, h)
-            except de.exception_types.FailedToMeetTolerances:
+            except Exception:
                 r.add("not_accepted")
                 break
             tn = float(np.max(np.abs(m.atol + np.max(np.abs(m.rtol * ycur))))) * 0.5 if implicit else None
